@@ -10,6 +10,15 @@ open RaftWal
 structure WalSt where
   w : Option Wal := none
   s : Spec.SLog := { first := 0, entries := [] }
+  /-- "late" seen: the background rotation the next append queues is held back by the harness -/
+  late : Bool := false
+  /-- a held rotation is pending: the value of the rotation counter before the append that queued it.  The model
+      rotates synchronously; when the very next call is Close (or a restart) the rotation goroutine never performs
+      the rotation — the next Open completes it as part of recovery, which is not counted in `segment_rotations` -/
+  pendingRot : Option Nat := none
+  /-- shut down with the held rotation pending and not opened again since: on disk the rotation has not happened
+      (sealed tail file, unsealed in meta) — the directory is not compared until the next Open has completed it -/
+  unsettled : Bool := false
   deriving Inhabited
 
 def errS : Err → String
@@ -45,7 +54,7 @@ def delAnswer (f0 l0 f1 l1 mn : Nat) : String :=
 
 def both (m sp : String) : String := m ++ " ## " ++ sp
 
-def walLine (st : WalSt) (line : String) : WalSt × String :=
+def walLineCore (st : WalSt) (line : String) : WalSt × String :=
   match words line with
   | ["case", _] => ({}, "case")
   | ["open", size, codecId] =>
@@ -61,6 +70,8 @@ def walLine (st : WalSt) (line : String) : WalSt × String :=
   | none => (st, "err nowal")
   | some w =>
   match words line with
+  | ["fmtcheck"] => (st, "ok")   -- harness-only: README layout of the real files (bytes are Model.Segment's business)
+  | ["late"] => ({ st with late := true }, "ok")   -- harness-only: the next append's background rotation is held back (same sequential meaning)
   | "store" :: toks =>
     match toks.mapM parseLogTok with
     | none => (st, "bad-op")
@@ -133,5 +144,35 @@ def walLine (st : WalSt) (line : String) : WalSt × String :=
   | ["meta"] =>
     (st, s!"{w.nextID} " ++ " ".intercalate (w.segs.map (fun s => showSeg s.1)))
   | _ => (st, "bad-op")
+
+def rotOf (st : WalSt) : Nat := match st.w with | some w => w.ctr.rotations | none => 0
+
+/-- one op line.  Around the sequential model: the bookkeeping of a rotation the harness holds back ("late"). -/
+def walLine (st : WalSt) (line : String) : WalSt × String :=
+  match words line with
+  | "case" :: _ => walLineCore st line
+  | "open" :: _ => walLineCore st line
+  | "store" :: _ =>
+    let r0 := rotOf st
+    let (st', out) := walLineCore st line
+    ({ st' with late := false, pendingRot := if st.late ∧ rotOf st' > r0 then some r0 else none }, out)
+  | ["late"] =>
+    let (st', out) := walLineCore st line
+    ({ st' with late := st.late || out == "ok", pendingRot := none }, out)
+  | w0 :: _ =>
+    let shuts := w0 == "close" ∨ w0 == "reopen"
+    let st0 : WalSt :=
+      if shuts then
+        match st.pendingRot, st.w with
+        | some r, some w => { st with w := some { w with ctr := { w.ctr with rotations := r } } }
+        | _, _ => st
+      else st
+    if st.unsettled ∧ (w0 == "files" ∨ w0 == "meta" ∨ w0 == "fmtcheck") then (st, "unsettled") else
+    let (st', out) := walLineCore st0 line
+    let uns := if w0 == "close" then st.unsettled || st.pendingRot.isSome
+               else if w0 == "reopen" then (out != "ok") && (st.unsettled || st.pendingRot.isSome)
+               else st.unsettled
+    ({ st' with late := st.late, pendingRot := none, unsettled := uns }, out)
+  | [] => walLineCore st line
 
 end Driver
